@@ -1,7 +1,17 @@
 import ScVerif.Base.Line
-/-! Driver handler for C20 (stub: replaced by the property's owner). -/
+import ScVerif.C20.DrvParent
+/-! Driver handler for C20: one op prefix per model (`par.`, `vend.`, `mode.`, `el.`, `meter.`, `fan.`, `pub.`). -/
 namespace ScVerif.C20
 
-def handle (_toks : List String) : String := "!bad-op"
+def handle (toks : List String) : String :=
+  let r : Option String :=
+    match toks with
+    | [] => none
+    | op :: _ =>
+      if op.startsWith "par." then Parent.handle? toks
+      else none
+  match r with
+  | some s => s
+  | none => "!bad-op"
 
 end ScVerif.C20
